@@ -35,6 +35,16 @@ THEOREMS = [
              "traces, a state equal to the unpaused one except the status (resuming), and the next poll offers the same tasks "
              "(equal up to the __state entry), as long as the unpaused run is still running with an active task after each "
              "report but the last"},
+    {"name": "C09d_report_commutes_with_pause_cmd / C09d_command_call / C09d_pause_reports_resume_poll_cmd (props/C09d.v)",
+     "strength": "P",
+     "text": "the commutation also for tasks with ONE engine-command target (noop, continue, fail): same result, states "
+             "equal up to status / terminal flags / error log, equal outright when the statuses agree; `fail` ends failed in "
+             "both runs in the same state. Hypotheses: commands inert, at most one command target, the unpaused step does not "
+             "complete the workflow (all decidable)"},
+    {"name": "C09d_items_cancel_under_pause_diverges / C09d_items_rows_diverge_only_on_cancel", "strength": "R",
+     "text": "with-items: FALSE -- an item canceled while pausing is ignored (no row), so a sibling's failure fails the "
+             "workflow where the unpaused run is already canceling and ends canceled (replayed on the engine; known finding "
+             "D35); table fact: this is the only action event on which the pausing row fails to mirror the running row"},
     {"name": "C09c_completion_under_pause_is_not_transparent", "strength": "R",
      "text": "the excluded case is real (replayed on the engine): when the report at which the UNPAUSED run completes the "
              "workflow is processed while pausing, the task is not flagged terminal, so after resume the output is rendered "
